@@ -201,8 +201,9 @@ def bookmark_cursor(ctx, P, rule="ORDER-BOOKMARK"):
 
 
 def memcpy_alias(ctx, P, rule="MEMCPY-ALIAS", tus=("tables",), funcs=None):
-    ctx.rule(rule, "no tsk_memcpy copies within one table column (destination and source based on the same column path): permuting "
-                   "rows in place must read from the saved copy, otherwise earlier writes clobber later sources")
+    ctx.rule(rule, "no tsk_memcpy copies within one table column (destination and source based on the same column path), and in the "
+                   "sorters no tsk_memmove either: permuting rows in place must read from the saved copy, otherwise earlier writes "
+                   "clobber later sources (memmove only makes ONE overlapping copy safe, not a permutation)")
     from sa.expr import local_aliases
     n = 0
     for key in tus:
@@ -213,7 +214,8 @@ def memcpy_alias(ctx, P, rule="MEMCPY-ALIAS", tus=("tables",), funcs=None):
             al = None
             k = 0
             for c in walk(fn.body):
-                if c.k == "CallExpr" and callee(c) == "tsk_memcpy":
+                if c.k == "CallExpr" and callee(c) in ("tsk_memcpy", "tsk_memmove", "memcpy", "memmove") and \
+                        (callee(c) in ("tsk_memcpy", "memcpy") or re.search(r"sort", fn.name)):
                     al = al or local_aliases(fn)
                     def base(e):
                         e = strip(e)
@@ -257,6 +259,14 @@ def sorter_run(ctx, P, rule="ORDER-RUN"):
         ent = found.get(nm)
         ok = ent is not None and ent[0] == w
         ctx.ob(rule, nm, ok, tu.loc(ent[1]) if ent else tu.loc(fn.node), "%s runs under %s (expected %s)" % (nm, ent[0] if ent else None, w))
+    # every error exit that depends only on the bookmark precedes the first statement that changes the tables (drop_index)
+    body_src = tu.src(fn.body)
+    drop = body_src.find("tsk_table_collection_drop_index")
+    late = [m_.start() for m_ in re.finditer(r"TSK_ERR_SORT_OFFSET_NOT_SUPPORTED|TSK_ERR_\w+_OUT_OF_BOUNDS", body_src) if drop != -1 and m_.start() > drop]
+    ctx.ob(rule, "args-before-mutation", drop != -1 and not late, tu.loc(fn.node),
+           "the bookmark is validated before the index is dropped and any row is moved" if (drop != -1 and not late) else
+           "a bookmark error (%s) is raised after tsk_table_collection_drop_index: a rejected sort() has already dropped the index and "
+           "reordered rows" % (re.search(r"TSK_ERR_\w+", body_src[late[0]:]).group(0) if late else "?"))
     # skip_sites is set only when BOTH bookmarks stand at the end of their tables (a default bookmark of 0 equals the row count of
     # an EMPTY mutation table, so either one alone is not evidence that the sites are sorted)
     for x in walk(fn.body):
